@@ -614,7 +614,7 @@ pub fn property() -> Property {
         plan: |tier| match tier {
             Tier::Quick => vec![
                 Step::Enumerate { kind: "single_field", count: SINGLE_COUNT },
-                Step::Pbt { kind: "layouts", cases: 20_000, max_len: 260 },
+                Step::Pbt { kind: "layouts", cases: 200_000, max_len: 260 },
             ],
             Tier::Thorough => vec![
                 Step::Enumerate { kind: "single_field", count: SINGLE_COUNT },
